@@ -326,7 +326,7 @@ class DatasetWorld(object):
             choices += ["rename", "rename", "relabel", "relabel", "axes_setitem", "axes_setitem"]
         choices += ["append_axis", "meta"]
         if dims:
-            choices += ["query", "query"]
+            choices += ["query", "query", "axes_assign", "fork_copy"]
         what = rng.choice(choices)
         if what == "query":
             # reads that populate caches (monotonicity flag, repr); the model does not move
@@ -334,6 +334,24 @@ class DatasetWorld(object):
         if what in ("set", "replace"):
             key = rng.choice(keys) if what == "replace" else rng.choice(KEYS)
             return {"op": "set", "key": key, "spec": self._spec(rng)}
+        if what == "axes_assign":
+            # ds.axes = [Axis, ...]: relabels the existing dimensions named, appends the others
+            k = rng.randint(1, min(2, len(dims)))
+            chosen = rng.sample(dims, k)
+            items = []
+            for d in chosen:
+                labs = m.dims[d]["labels"]
+                new = V.gen_labels(rng, len(labs), _kind_of(labs, self.cfg["dim_kind"].get(d)))
+                if len(new) != len(labs):
+                    return self._gen_mutation(rng)
+                items.append([d, new])
+            free = [n for n in NEW_NAMES if n not in dims]
+            if free and rng.random() < 0.4:
+                n = rng.choice(free)
+                items.append([n, V.gen_labels(rng, rng.randint(max(1, self.cfg["min_len"]), self.cfg["max_len"]), self.cfg["dim_kind"].get(n))])
+            return {"op": "axes_assign", "items": items}
+        if what == "fork_copy":
+            return {"op": "fork_copy", "how": rng.choice(["copy", "rename_keys", "rename_axes", "set_axis"]), "continue_on": rng.choice(["copy", "original"])}
         if what == "set_raw":
             return {"op": "set_raw", "key": rng.choice(KEYS), "value": rng.choice([3, 2.5])}
         if what == "del":
@@ -602,6 +620,8 @@ class DatasetWorld(object):
                         what, op, V.describe_snap_diff(snap0, now)))
         if "C13" in self.props and self.ds is not None and op not in ("dsop",):
             self.check_invariants(self.ds, self.model, "after %s" % op)
+            if getattr(self, "ghost", None) is not None and op != "fork_copy":
+                self.check_invariants(self.ghost[0], self.ghost[1], "on the other dataset of an earlier inplace=False call, after %s" % op)
         return out
 
     # called by the kernel through gen_step: expansion of enumeration markers needs the rng
@@ -862,6 +882,78 @@ class DatasetWorld(object):
             m.rename_dim(d, newname)
         self.n_mut += 1
         self.count("c13:axes_setitem_%s_users%d" % ("pos" if s["by_pos"] else "name", min(users, 2)))
+        return "ok"
+
+    def x_axes_assign(self, s):
+        from dimarray import Axis
+        m, ds = self.model, self.ds
+        for d, labs in s["items"]:
+            if d in m.dims and len(labs) != len(m.dims[d]["labels"]):
+                raise Skip("stale")
+        try:
+            ds.axes = [Axis(V.label_array(labs), d) for d, labs in s["items"]]
+        except Exception as e:
+            if "C13" in self.props:
+                raise Violation("C13", "ds_axes_setitem", "ds.axes = [Axis...] raised %s: %s" % (type(e).__name__, str(e)[:160]))
+            raise Skip("raised")
+        for d, labs in s["items"]:
+            if d in m.dims:
+                m.relabel(d, labs)
+                m.dims[d]["attrs"] = {}
+            else:
+                m.dims[d] = {"labels": list(labs), "attrs": {}}
+                m.unused.add(d)
+        self.n_mut += 1
+        self.count("c13:axes_assign")
+        return "ok"
+
+    def x_fork_copy(self, s):
+        """An out-of-place variant returns a second dataset; both must stay valid, and independent in their axes."""
+        m, ds = self.model, self.ds
+        how = s["how"]
+        m2 = m.clone()
+        if how == "copy":
+            ds2 = ds.copy()
+            m2.attrs = dict(m.attrs)
+        elif how == "rename_keys":
+            if not m.vars:
+                raise Skip("empty")
+            ds2 = ds.rename_keys(lambda k: k + "_", inplace=False)
+            for k in list(m2.vars):
+                m2.rename_key(k, k + "_")
+        elif how == "rename_axes":
+            if not m.used():
+                raise Skip("empty")
+            d = m.used()[0]
+            new = [n for n in NEW_NAMES + ["w1", "w2"] if n not in m.dims][0]
+            ds2 = ds.rename_axes({d: new}, inplace=False)
+            m2.rename_dim(d, new)
+        else:
+            if not m.used():
+                raise Skip("empty")
+            d = m.used()[0]
+            labs = m.dims[d]["labels"]
+            new = list(reversed(labs))
+            if new == labs:
+                raise Skip("nothing to change")
+            ds2 = ds.set_axis(V.label_array(new), axis=d, inplace=False)
+            m2.relabel(d, new)
+        # copies drop axes that no variable uses (they are rebuilt from the variables)
+        for d in list(m2.unused):
+            if d not in ds2.dims:
+                m2.unused.discard(d)
+                m2.dims.pop(d, None)
+        if "C13" in self.props:
+            self.check_invariants(ds2, m2, "on the result of %s(inplace=False)" % how)
+            self.check_invariants(ds, m, "on the original after %s(inplace=False)" % how)
+            for d in ds2.dims:
+                if d in ds.dims and ds2.axes[d] is ds.axes[d]:
+                    raise Violation("C13", "ds_sharing", "the dataset returned by %s(inplace=False) holds the original's Axis object for %r" % (how, d))
+        self.ghost = (ds, m) if s["continue_on"] == "copy" else (ds2, m2)
+        if s["continue_on"] == "copy":
+            self.ds, self.model = ds2, m2
+        self.n_mut += 1
+        self.count("c13:fork_" + how)
         return "ok"
 
     def x_append_axis(self, s):
